@@ -521,8 +521,18 @@ class Evaluator:
                     self.assign(item.optional_vars, ("enter", ctx), live, st)
             return self.block(st.body, live)
         if isinstance(st, (ast.FunctionDef, ast.AsyncFunctionDef)):
+            # a local function is a named lambda: summarise it in the current environment
             self.nested[st.name] = st
             self.env[st.name] = ("closure", st.name)
+            if isinstance(st, ast.FunctionDef) and not st.decorator_list:
+                lid = self.fresh("F")
+                try:
+                    sub = Evaluator(self.index, self.module, st, f"{self.qual}.{st.name}", self.cls, self.env)
+                    sub.inline_stack = self.inline_stack
+                    self.lambdas[lid] = sub.run()
+                    self.env[st.name] = ("lambda", lid)
+                except (AnalysisError, RecursionError):
+                    pass
             return live
         if isinstance(st, ast.ClassDef):
             self.env[st.name] = ("closure", st.name)
